@@ -85,6 +85,35 @@ def c07_jobs(tier):
     return jobs
 
 
+def c12_jobs(tier):
+    jobs = []
+    for w in (1, 2, 4, 8, 0, 3):
+        for gt in range(10):
+            jobs.append(J("ast", "ZZ_C12_int", w=w, gt=gt))
+            jobs.append(J("ast", "ZZ_C12_uint", w=w, gt=gt))
+    for w in (4, 8, 2):
+        for gt in range(12):
+            jobs.append(J("ast", "ZZ_C12_float", w=w, gt=gt))
+    jobs.append(J("ast", "ZZ_C12_binary_int"))
+    for k in ([0, 1, 2, 3] if tier == "quick" else [0, 1, 2, 3, 8, 9]):
+        jobs.append(J("ast", "ZZ_C12_binary_str", k=k))
+    jobs += [J("ast", "ZZ_C12_wrongtype", which=i) for i in range(9)]
+    jobs.append(J("ast", "ZZ_C12_boolean"))
+    for k in ([0, 1, 2, 3] if tier == "quick" else [0, 1, 2, 3, 4, 5]):
+        jobs.append(J("ast", "ZZ_C12_ascii", k=k))
+    for k in ([0, 1, 2, 3, 4] if tier == "quick" else [0, 1, 2, 3, 4, 5, 6]):
+        for kind in range(7):
+            if tier == "quick" and k == 4 and kind not in (0, 6):
+                continue
+            jobs.append(J("ast", "ZZ_C12_varname", k=k, kind=kind, timeout_s=(200 if tier == "quick" else 3000)))
+    jobs += [J("ast", "ZZ_C12_ellipsis", which=i) for i in range(6)]
+    jobs += [J("ast", "ZZ_C12_ellipsis", which=6, k=k) for k in ([0, 1, 2, 3] if tier == "quick" else [0, 1, 2, 3, 4, 5])]
+    jobs += [J("ast", "ZZ_C12_dupnames", which=i) for i in range(6)]
+    jobs += [J("ast", "ZZ_C12_message", which=i) for i in range(3)]
+    jobs += [J("ast", "ZZ_C12_message", which=3, k=k) for k in ([0, 1, 2, 3] if tier == "quick" else [0, 1, 2, 3, 4, 5])]
+    return jobs
+
+
 def c13_jobs(tier):
     jobs = [J("ast", "ZZ_C13_header", typ=t) for t in range(14)]
     jobs += [J("ast", "ZZ_C13_bytelen", typ=t) for t in range(14)]
@@ -92,6 +121,11 @@ def c13_jobs(tier):
 
 
 PROPS = {
+    "C12": dict(jobs=c12_jobs,
+                level_text="Bounded model checking: one harness per factory and accepted Go argument type with the argument fully symbolic (all 2^64 values per query), oracle = mathematical range test; names as k arbitrary bytes against a hand-written automaton of the documented grammar.",
+                level_note="Trusted: go/ssa, engine (regexp simulation over the real regexp/syntax program), z3 incl. FP theory.",
+                bounds={"quick": "1 element per call; names/strings k<=4 bytes", "thorough": "k<=6"},
+                outside=["message names with non-ASCII whitespace", "binary string forms containing '_' (unspecified)"]),
     "C03": dict(jobs=c03_jobs, must_reach=["end"],
                 level_text="Bounded model checking against a strict reference decoder written from the E5/E37 text: both run on the same symbolic bytes, verdict and canonical re-encoding compared on every path; plus structured encodings with non-minimal length bytes and single-point corruptions.",
                 level_note="Trusted: go/ssa, engine, z3, and the reference decoder in harness/hsms/c03_c07.go (the oracle).",
